@@ -164,6 +164,51 @@ func genTargetC02(rng *Rng, prefix string) string {
 	return t
 }
 
+// storm: many requests at once on one server, each with its own path, query, header marker and body;
+// every request must be treated exactly as if it had come alone (the properties speak of "every request").
+func genStorm(tier string, rng *Rng, prop string) []Case {
+	var out []Case
+	n := 30
+	if tier == "thorough" {
+		n = 400
+	}
+	for i := 0; i < n; i++ {
+		rs := []Rule{
+			{Enabled: true, Path: "/fixed/*", Dest: "http://d0.test/landing", Type: 1},
+			{Enabled: true, Path: "/q/*", Dest: "http://d1.test/base/$1", Type: 1},
+			{Enabled: true, Path: "/exact", Dest: "http://d2.test/exact?own=1", Type: 1},
+			{Enabled: true, Path: "/*", Dest: "http://d3.test/$1", Type: 1},
+		}
+		if rng.Chance(50, 100) {
+			rs = append([]Rule{{Enabled: true, Path: "/fixed/*", Dest: "http://c0.test/copy", Type: 2}}, rs...)
+		}
+		if rng.Chance(30, 100) {
+			v := "set-by-rule"
+			rs[len(rs)-1].ReqHdrs = []KVOpt{{"x-custom", &v}}
+		}
+		ops := []Op{{Kind: "script", Script: scriptFor(rs)}}
+		k := 16 + rng.Intn(17)
+		ops = append(ops, Op{Kind: "par", N: k})
+		for j := 0; j < k; j++ {
+			tg := rng.Pick([]string{"/fixed/a", "/fixed/b", "/q/x", "/q/y/z", "/exact", "/other"})
+			if rng.Chance(85, 100) {
+				tg += fmt.Sprintf("?user=u%d&token=T%d", j, rng.Intn(1000))
+			}
+			q := Req{Method: rng.Pick([]string{"GET", "GET", "POST", "PUT", "DELETE"}), Host: rng.Pick([]string{"h1", "h1:8080"}), Target: tg,
+				Hdrs: []KV{{parHeader, fmt.Sprintf("r%d", j)}, {"X-Custom", fmt.Sprintf("c%d", j)}, {"Cookie", fmt.Sprintf("sid=%d", j)}}}
+			if q.Method == "POST" || q.Method == "PUT" {
+				q.Body = fmt.Sprintf("body-of-%d-", j) + bigBody(rng.Intn(3000))
+				if rng.Chance(40, 100) {
+					q.Hdrs = append(q.Hdrs, KV{chunkedHeader, "1"})
+				}
+			}
+			ops = append(ops, Op{Kind: "req", Req: q})
+		}
+		out = append(out, cacheCase{CacheCase{Retries: 0, Rules: rs, Caches: nil, Base: cacheBase, Ops: ops}})
+	}
+	return out
+}
+
 func genC02(tier string, rng *Rng) []Case {
 	var out []Case
 	n := 4000
@@ -240,6 +285,17 @@ func genC03(tier string, rng *Rng) []Case {
 			if rng.Chance(25, 100) {
 				hdrs = append(hdrs, kv)
 			}
+		}
+		if len(body) > 0 && rng.Chance(30, 100) {
+			// the body is sent with Transfer-Encoding: chunked. Go's server reads a Trailer field of a chunked
+			// request as the declaration of its trailers and takes it out of the header map: not sent here
+			var kept []KV
+			for _, kv := range hdrs {
+				if !strings.EqualFold(kv.K, "Trailer") {
+					kept = append(kept, kv)
+				}
+			}
+			hdrs = append(kept, KV{chunkedHeader, "1"})
 		}
 		main := Rule{Enabled: true, Path: "/*", Dest: "http://main.test/m/$1", Type: 1, HostHeader: rng.Pick(hostModes)}
 		if rng.Chance(35, 100) {
@@ -355,6 +411,12 @@ func genC20(tier string, rng *Rng) []Case {
 		}
 		if rng.Chance(10, 100) {
 			q.Hdrs = append(q.Hdrs, KV{"Richie-Request-ID", "cid"})
+		}
+		if len(q.Body) > 0 && rng.Chance(50, 100) {
+			if rng.Chance(50, 100) {
+				q.Body = bigBody(3000)
+			}
+			q.Hdrs = append(q.Hdrs, KV{chunkedHeader, "1"}) // unknown length: Transfer-Encoding: chunked
 		}
 		var secrets *[]string
 		if rng.Chance(40, 100) {
